@@ -1,5 +1,6 @@
 SPECIFICATION TraceSpec
 CONSTANTS
+  KeepHist = FALSE
   Dev = {"d1", "d2", "d3"}
   Ref = {"r1", "r2"}
   MaxRecords = 100000
